@@ -124,6 +124,23 @@ CLAIMS['C21'] = dict(
          'left, no pipe, no child". Six std::exit() calls on short reads in the parent are listed (R21.4, not armed).',
     design='3/C21', note='That the other files\' findings equal a fault-free run is a run-time property and is not decided.')
 
+CLAIMS['C23'] = dict(
+    technique='static analysis: who-may-use rule on the raw logger field plus must-path analysis (dominance by the suppression test) of every forward to the user-visible logger',
+    text='Decides the "no finding bypasses the suppression gate" half: CppCheck::mErrorLoggerDirect is used only to construct wrappers; in '
+         'CppCheckLogger::reportErr every forward of a non-internal message is dominated by the negative suppression test (or lies in the safety-mode arm '
+         'for critical ids) and every path through the isSuppressed arm records the match; every direct reportErr on the raw logger in cli/ is dominated by '
+         'hasToLog(msg), which consults the nomsg list.',
+    design='3/C23', note='Which findings a given suppression matches (globs, line ranges, block nesting) is value semantics of isSuppressed()/PathMatch and is not decided.')
+CLAIMS['C25'] = dict(
+    technique='static analysis: must-path analysis (dominance / post-dominance) of the exit-code accounting around every forward, def-use flow of component results into '
+              'the returned status, sibling agreement on consulting the exitcode suppressions',
+    text='Decides that every non-internal, unsuppressed finding forwarded by CppCheckLogger::reportErr passes the accounting statement guarded by '
+         '!nofail.isSuppressed && !nomsg.isSuppressed; that the results of all three executors, analyseWholeProgram and the unmatched-suppression report flow '
+         'into returnValue, settings.exitCode is returned exactly under returnValue != 0 and EXIT_FAILURE for an unparsable command line; that each '
+         'executor accumulates every per-file result (incl. the pipe protocol of the process executor); and that every fail-on-finding site consults '
+         'Suppressions::nofail (one known finding: reportUnmatchedSuppressions).',
+    design='3/C25', note='The "if and only if" on a concrete run (which findings a run produces) is not decided; only that no path around the accounting exists.')
+
 NOT_APPLICABLE = {
     'C01': 'soundness of inferred values vs. concrete executions of arbitrary programs; needs an executing/symbolic oracle, no structural necessary condition in valueflow.cpp',
     'C02': 'same as C01, for container sizes',
